@@ -94,7 +94,7 @@ DURATIONS = {
 
 
 def duration_literal_rule(F, rep):
-    rid = rep.rule("R14.3", "a duration literal denotes sign * (sum of component * unit) over the components present, the sign applying to the whole sum (try_from(&str) folded with symbolic components)")
+    rid = rep.rule("R14.3", "a duration literal denotes sign * (sum of component * unit) over the components present, the sign applying to the whole sum, and is rejected when a written component cannot be converted (try_from(&str) folded with symbolic components)")
     some = lambda x: ("v", "Some", [x])
     none = ("v", "None", [])
     n = 0
@@ -116,12 +116,26 @@ def duration_literal_rule(F, rep):
                 g = args[1][1]
                 return [(("group", g, True), some(("sym", "m:" + g))), (("group", g, False), none)]
             if last == "parse" and args and args[0][0] == "sym" and args[0][1].startswith("m:"):
-                return ("v", "Ok", [("sym", args[0][1][2:])])
+                g = args[0][1][2:]
+                # the digits of a component may not fit the integer type they are converted to: both outcomes are explored
+                return [(("parsed", g, True), ("v", "Ok", [("sym", g)])), (("parsed", g, False), ("v", "Err", [("sym", "parse-error")]))]
             if last in ("trunc", "round", "floor") and args:
                 return args[0]           # the fraction scaled to nanoseconds; rounding of the product is not modelled
             if last == "try_from" and "TryFrom" in c and len(args) == 1 and args[0][0] in ("lin", "sym", "lit"):
                 return ("v", "Ok", [args[0]])      # the representable case
             return None
+        # the digits of a component are converted into a type wide enough for every duration the value type can hold (at least 64 bits): a narrower type rejects / drops valid literals
+        b0 = F.bodies.get(name)
+        narrow = []
+        for bi, c0 in (F.body_calls(b0) if b0 else []):
+            p0 = c0["f"].get("p") or ""
+            if p0.endswith("::parse") and "str" in p0:
+                sub = (c0["f"].get("substs") or "").strip("[]")
+                if re.fullmatch(r"[iu](8|16|32)|f32", sub):
+                    narrow.append((sub, c0.get("line")))
+        if narrow:
+            rep.violation(rid, "literal:%s:width" % tname, "%s converts a component with parse::<%s>() (line %s): components beyond that type's range make a valid literal null or lose the component"
+                          % (name, narrow[0][0], narrow[0][1]), "%s:%s" % (h["file"], narrow[0][1]))
         outs, ev = c15.fold(F, name, [("sym", "value")], hook)
         key = "literal:%s" % tname
         if outs is None:
@@ -140,8 +154,14 @@ def duration_literal_rule(F, rep):
             for c in conds:
                 if c[0] == "group":
                     present[c[1]] = c[2]
+            # (the fraction group is `.` followed by digits; the only text that does not convert is the bare `.`, which denotes no fraction: PT0.S is pinned by the repository's tests)
+            dropped = sorted({c[1] for c in conds if c[0] == "parsed" and c[2] is False and present.get(c[1]) and c[1] != "fractional"})
+            if dropped:
+                probs.append("a literal whose %s component is written but cannot be converted is accepted with that component ignored (it must be rejected)" % " / ".join(dropped))
+                continue
             sg = -1 if present.get(sign_group) else 1
-            want = {g: sg * w for g, w in weights.items() if present.get(g)}
+            unparsed = {c[1] for c in conds if c[0] == "parsed" and c[2] is False}
+            want = {g: sg * w for g, w in weights.items() if present.get(g) and g not in unparsed}
             if lin[0] != want or lin[1] != 0:
                 got = " + ".join("%d*%s" % (c, g) for g, c in sorted(lin[0].items())) or "0"
                 exp = " + ".join("%d*%s" % (c, g) for g, c in sorted(want.items())) or "0"
